@@ -264,7 +264,13 @@ class FormulaManager(object):
             raise PysmtValueError("The exponent of POW must be a constant.", exponent)
 
         if base.is_constant():
-            val = cast(Union[int, fractions.Fraction], base.constant_value()) ** cast(Union[int, fractions.Fraction], exponent.constant_value())
+            base_val = cast(Union[int, fractions.Fraction], base.constant_value())
+            exp_val = cast(Union[int, fractions.Fraction], exponent.constant_value())
+            if is_pysmt_integer(base_val) and is_pysmt_integer(exp_val) and exp_val < 0:
+                # int ** negative int is a float in Python: compute the
+                # exact rational instead
+                base_val = Fraction(base_val)
+            val = base_val ** exp_val
             return self.Real(val)
         return self.create_node(node_type=op.POW, args=(base, exponent))
 
@@ -618,6 +624,11 @@ class FormulaManager(object):
 
         if isinstance(value, str):
             if value.startswith("#b"):
+                if not all(v in ["0", "1"] for v in value[2:]):
+                    # int(s, 2) also accepts signs, underscores, blanks
+                    # and a "0b" prefix
+                    raise PysmtValueError("Expecting binary value as string, " \
+                                          "got %s instead." % value)
                 str_width = len(value)-2
                 value = int(value[2:],2)
             elif all(v in ["0", "1"] for v in value):
@@ -634,6 +645,11 @@ class FormulaManager(object):
 
         if width is None:
             raise PysmtValueError("Need to specify a width for the constant")
+        if not is_python_integer(width):
+            # The width is part of the constant: True == 1 and 2.0 == 2
+            # would otherwise name the constants of width 1 and 2
+            raise PysmtTypeError("The width of a bit-vector must be an " \
+                                 "integer. The type was: %s" % str(type(width)))
         if width <= 0:
             raise PysmtValueError("The width of a bit-vector must be positive, " \
                                   "got %s" % str(width))
@@ -904,8 +920,8 @@ class FormulaManager(object):
                                 args=(left, right))
 
     def BVComp(self, left: FNode, right: FNode) -> FNode:
-        """Returns a BV of size 1 equal to 0 if left is equal to right,
-        otherwise 1 is returned."""
+        """Returns a BV of size 1 equal to 1 if left is equal to right,
+        otherwise 0 is returned."""
         return self.create_node(node_type=op.BV_COMP,
                                 args=(left, right),
                                 payload=(1,))
